@@ -82,7 +82,48 @@ def _join_kind(stmt, call_node):
                 return 'nonpropagating', f'{name}(...) does not raise the exceptions of the work it waits for'
     if awaited:
         return 'propagating', 'awaited'
+    col = _collected_join(call_node)
+    if col is not None:
+        return col
     return 'none', 'the work is started but not awaited in this statement'
+
+
+def _collected_join(call_node):
+    """work started into a collection (`xs.append(start(..))`, `xs = [start(..) for ..]`) that is later joined
+    by `await gather(*xs)` on every normal path"""
+    from ..astutil import enclosing_func, enclosing_stmt as _es
+    from ..cfg import cfg_of as _cfg_of
+
+    par = getattr(call_node, '_parent', None)
+    name = None
+    if isinstance(par, ast.Call) and isinstance(par.func, ast.Attribute) and par.func.attr in ('append', 'add') and isinstance(par.func.value, ast.Name):
+        name = par.func.value.id
+    elif isinstance(par, (ast.ListComp, ast.SetComp, ast.GeneratorExp)) and par.elt is call_node:
+        gp = getattr(par, '_parent', None)
+        if isinstance(gp, ast.Assign) and len(gp.targets) == 1 and isinstance(gp.targets[0], ast.Name) and not isinstance(par, ast.GeneratorExp):
+            name = gp.targets[0].id
+    if name is None:
+        return None
+    fn = enclosing_func(call_node)
+    if fn is None:
+        return None
+    cfg = _cfg_of(fn)
+    start = _es(call_node)
+    joins = []
+    for c in ast.walk(fn):
+        if isinstance(c, ast.Call) and (dotted(c.func) or '') in PROPAGATING_JOINS and any(isinstance(a, ast.Starred) and isinstance(a.value, ast.Name) and a.value.id == name for a in c.args):
+            kw = kwarg(c, 'return_exceptions')
+            if kw is not None and not (isinstance(kw, ast.Constant) and not kw.value):
+                return 'nonpropagating', f'{dotted(c.func)}(*{name}, return_exceptions={src(kw)})'
+            if isinstance(getattr(c, '_parent', None), ast.Await):
+                joins.append(_es(c))
+    if not joins:
+        return None
+    jn = [n for j in joins for n in cfg.nodes_of(j, 'stmt')]
+    for s_ in cfg.nodes_of(start, ('ok', 'stmt')):
+        if cfg.path(s_, [cfg.exit], avoid=jn, kinds=('normal',)) is not None:
+            return 'nonpropagating', f'`{name}` is joined by gather only on some paths'
+    return 'propagating', f'collected in `{name}` and joined by await gather(*{name})'
 
 
 def _result_loops(fi, cfg):
